@@ -19,11 +19,194 @@ verus! {
 pub trait ConstZero: Sized { const ZERO: Self; }
 impl ConstZero for u64 { const ZERO: Self = 0; }
 
+// ---- vocabulary for two's complement (n = number of limbs, W = B^n)
+
+/// W/2 = 2^(64n-1) = |MIN|
+pub open spec fn ih(n: nat) -> int { bp(n) / 2 }
+/// two's complement reading of an unsigned value v in [0, W)   (Int::iv() == iv_of(self.0.v(), LIMBS))
+pub open spec fn iv_of(v: int, n: nat) -> int { if 2 * v < bp(n) { v } else { v - bp(n) } }
+/// x in [MIN, MAX]
+pub open spec fn in_range(x: int, n: nat) -> bool { -ih(n) <= x < ih(n) }
+/// x modulo W, reinterpreted in two's complement
+pub open spec fn wrap_i(x: int, n: nat) -> int { iv_of(x % bp(n), n) }
+pub open spec fn abs_i(x: int) -> int { if x < 0 { -x } else { x } }
+
+pub proof fn lemma_half(n: nat)
+    requires n >= 1
+    ensures bp(n) == 2 * ih(n), ih(n) == 0x8000_0000_0000_0000 * bp((n - 1) as nat), ih(n) >= 0x8000_0000_0000_0000, bp(n) >= B(),
+        bp((n - 1) as nat) >= 1
+{
+    lemma_bp_succ((n - 1) as nat);
+    let p = bp((n - 1) as nat);
+    assert(bp(n) == B() * p);
+    assert(B() * p == 2 * (0x8000_0000_0000_0000 * p)) by (nonlinear_arith);
+    assert(0x8000_0000_0000_0000 * p >= 0x8000_0000_0000_0000) by (nonlinear_arith) requires p >= 1;
+}
+
+pub proof fn lemma_bp_mono(a: nat, b: nat)
+    requires a <= b
+    ensures bp(a) <= bp(b), bp(a) >= 1
+{
+    lemma_bp_add(a, (b - a) as nat);
+    lemma_bp_succ(a); lemma_bp_succ((b - a) as nat);
+    let x = bp(a); let y = bp((b - a) as nat);
+    assert(x * y >= x) by (nonlinear_arith) requires x >= 1, y >= 1;
+}
+
+/// the most significant bit of the top limb is the sign
+pub proof fn lemma_top_bit(s: Seq<Limb>, n: nat)
+    requires n >= 1
+    ensures (s[n - 1].0 >= 0x8000_0000_0000_0000u64) == (2 * val(s, n) >= bp(n))
+{
+    lemma_half(n); lemma_val_bound(s, (n - 1) as nat);
+    let p = bp((n - 1) as nat); let t = s[n - 1].0 as int; let lo = val(s, (n - 1) as nat);
+    assert(val(s, n) == lo + t * p);
+    if t >= 0x8000_0000_0000_0000 {
+        assert(t * p >= 0x8000_0000_0000_0000 * p) by (nonlinear_arith) requires t >= 0x8000_0000_0000_0000, p >= 1;
+    } else {
+        assert(t * p + p <= 0x8000_0000_0000_0000 * p) by (nonlinear_arith) requires t + 1 <= 0x8000_0000_0000_0000, p >= 1;
+    }
+}
+
+pub proof fn lemma_mod_window(s: int, w: int)
+    requires w > 0, -w <= s < 2 * w
+    ensures s % w == (if s < 0 { s + w } else if s >= w { s - w } else { s })
+{
+    if s < 0 { lemma_fundamental_div_mod_converse(s, w, -1, s + w); }
+    else if s >= w { lemma_fundamental_div_mod_converse(s, w, 1, s - w); }
+    else { lemma_small_mod(s as nat, w as nat); }
+}
+
+pub proof fn lemma_iv_bounds(v: int, n: nat)
+    requires n >= 1, 0 <= v < bp(n)
+    ensures in_range(iv_of(v, n), n), (iv_of(v, n) < 0) == (2 * v >= bp(n)), v == iv_of(v, n) % bp(n),
+        wrap_i(iv_of(v, n), n) == iv_of(v, n), (iv_of(v, n) == 0) == (v == 0),
+        v == (if iv_of(v, n) < 0 { iv_of(v, n) + bp(n) } else { iv_of(v, n) })
+{
+    lemma_half(n);
+    lemma_mod_window(iv_of(v, n), bp(n));
+}
+
+pub proof fn lemma_wrap_id(t: int, n: nat)
+    requires n >= 1, in_range(t, n)
+    ensures wrap_i(t, n) == t
+{
+    lemma_half(n);
+    lemma_mod_window(t, bp(n));
+}
+
+pub proof fn lemma_wrap_range(t: int, n: nat)
+    requires n >= 1
+    ensures in_range(wrap_i(t, n), n)
+{
+    lemma_half(n);
+    lemma_mod_bound(t, bp(n));
+    lemma_iv_bounds(t % bp(n), n);
+}
+
+pub proof fn lemma_wrap_shift(t: int, k: int, n: nat)
+    requires n >= 1
+    ensures wrap_i(t + k * bp(n), n) == wrap_i(t, n)
+{
+    lemma_half(n);
+    lemma_mod_multiples_vanish(k, t, bp(n));
+    assert(bp(n) * k + t == t + k * bp(n)) by (nonlinear_arith);
+}
+
+/// unsigned value known modulo W and the intended signed value in range: the two's complement reading is that value
+pub proof fn lemma_iv_from_mod(v: int, t: int, n: nat)
+    requires n >= 1, v == t % bp(n), in_range(t, n)
+    ensures iv_of(v, n) == t
+{ lemma_wrap_id(t, n); }
+
+/// signed addition from the unsigned wrapping sum
+pub proof fn lemma_iadd(av: int, bv: int, rv: int, n: nat)
+    requires n >= 1, 0 <= av < bp(n), 0 <= bv < bp(n), rv == (av + bv) % bp(n)
+    ensures
+        iv_of(rv, n) == wrap_i(iv_of(av, n) + iv_of(bv, n), n),
+        in_range(iv_of(av, n) + iv_of(bv, n), n) ==> iv_of(rv, n) == iv_of(av, n) + iv_of(bv, n),
+        (((iv_of(av, n) < 0) == (iv_of(bv, n) < 0)) && ((iv_of(av, n) < 0) != (iv_of(rv, n) < 0))) == !in_range(iv_of(av, n) + iv_of(bv, n), n)
+{
+    let w = bp(n);
+    lemma_half(n);
+    lemma_iv_bounds(av, n); lemma_iv_bounds(bv, n);
+    lemma_mod_window(av + bv, w);
+    let a = iv_of(av, n); let b = iv_of(bv, n);
+    let k: int = (if a < 0 { 1int } else { 0int }) + (if b < 0 { 1int } else { 0int });
+    assert(av + bv == (a + b) + k * w) by (nonlinear_arith) requires av == (if a < 0 { a + w } else { a }), bv == (if b < 0 { b + w } else { b }), k == (if a < 0 { 1int } else { 0int }) + (if b < 0 { 1int } else { 0int });
+    lemma_wrap_shift(a + b, k, n);
+    if in_range(a + b, n) { lemma_wrap_id(a + b, n); }
+}
+
+/// two's complement negation from the unsigned (W - v) mod W
+pub proof fn lemma_ineg(v: int, rv: int, n: nat)
+    requires n >= 1, 0 <= v < bp(n), rv == (bp(n) - v) % bp(n)
+    ensures
+        iv_of(rv, n) == wrap_i(-iv_of(v, n), n),
+        iv_of(v, n) != -ih(n) ==> iv_of(rv, n) == -iv_of(v, n),
+        iv_of(v, n) == -ih(n) ==> iv_of(rv, n) == -ih(n),
+        iv_of(v, n) < 0 ==> rv == -iv_of(v, n),
+        0 <= rv < bp(n)
+{
+    let w = bp(n);
+    lemma_half(n);
+    lemma_iv_bounds(v, n);
+    lemma_mod_window(w - v, w);
+    lemma_mod_window(-iv_of(v, n), w);
+}
+
+/// limbwise complement
+pub proof fn lemma_val_not(s: Seq<Limb>, t: Seq<Limb>, n: nat)
+    requires forall|k: int| 0 <= k < n ==> t[k].0 == s[k].0 ^ u64::MAX
+    ensures val(t, n) == bp(n) - 1 - val(s, n)
+    decreases n
+{
+    lemma_bp1();
+    if n > 0 {
+        let m = (n - 1) as nat;
+        lemma_val_not(s, t, m);
+        lemma_bp_succ(m);
+        let x = s[m as int].0; let y = t[m as int].0; let p = bp(m);
+        assert(y == 0xffff_ffff_ffff_ffffu64 - x) by (bit_vector) requires y == x ^ 0xffff_ffff_ffff_ffffu64;
+        assert((B() - 1 - x as int) * p == B() * p - p - x as int * p) by (nonlinear_arith);
+    }
+}
+
+/// a run of all-ones limbs
+pub proof fn lemma_tv_all_max(s: Seq<Limb>, a: nat, b: nat)
+    requires a <= b, forall|k: int| a <= k < b ==> s[k].0 == u64::MAX
+    ensures tv(s, a, b) == bp(b) - bp(a)
+    decreases b - a
+{
+    if b > a {
+        let m = (b - 1) as nat;
+        lemma_tv_all_max(s, a, m);
+        lemma_bp_succ(m);
+        let p = bp(m);
+        assert((B() - 1) * p == B() * p - p) by (nonlinear_arith);
+    }
+}
+
+pub proof fn lemma_tv_all_zero(s: Seq<Limb>, a: nat, b: nat)
+    requires a <= b, forall|k: int| a <= k < b ==> s[k].0 == 0
+    ensures tv(s, a, b) == 0
+    decreases b - a
+{
+    if b > a {
+        let m = (b - 1) as nat;
+        lemma_tv_all_zero(s, a, m);
+        assert(s[m as int].0 as int * bp(m) == 0) by (nonlinear_arith) requires s[m as int].0 == 0;
+    }
+}
+
 //@@ subst \b(Self|Uint|Int)::(ZERO|ONE|MINUS_ONE|MIN|MAX|SIGN_MASK|FULL_MASK|BITS|LIMBS|LOG2_BITS)\b(?!\() => \1::\2()
 //@@ subst \b(Uint|Int)::<(\w+)>::(ZERO|ONE|MAX|MIN|BITS)\b(?!\() => \1::<\2>::\3()
 //@@ fn src/uint.rs | impl<const LIMBS: usize> Uint<LIMBS> | as_int | body | props C13 C11
 impl<const LIMBS: usize> Uint<LIMBS> {
 pub const fn as_int(&self) -> (ret__: Int<LIMBS>)
+//@+
+    ensures ret__.0 == *self
+//@-
 {
         Int::from_bits(*self)
     }
@@ -32,10 +215,18 @@ pub const fn as_int(&self) -> (ret__: Int<LIMBS>)
 //@@ fn src/uint/bit_xor.rs | impl<const LIMBS: usize> Uint<LIMBS> | bitxor | body | props C05 C11
 impl<const LIMBS: usize> Uint<LIMBS> {
 pub const fn bitxor(&self, rhs: &Self) -> (ret__: Self)
+//@+
+    ensures forall|k: int| 0 <= k < LIMBS ==> ret__.limbs@[k].0 == self.limbs@[k].0 ^ rhs.limbs@[k].0,
+        is_xor(self.limbs@, rhs.limbs@, ret__.limbs@, LIMBS as nat)
+//@-
 {
         let mut limbs = [Limb::ZERO; LIMBS];
         let mut i = 0;
         while i < LIMBS
+//@+
+    invariant i <= LIMBS, forall|k: int| 0 <= k < i ==> limbs@[k].0 == self.limbs@[k].0 ^ rhs.limbs@[k].0,
+    decreases LIMBS - i,
+//@-
 {
             limbs[i] = self.limbs[i].bitxor(rhs.limbs[i]);
             i += 1;
@@ -47,10 +238,17 @@ pub const fn bitxor(&self, rhs: &Self) -> (ret__: Self)
 //@@ fn src/uint.rs | impl<const LIMBS: usize> Uint<LIMBS> | from_words | body | props C16 C11
 impl<const LIMBS: usize> Uint<LIMBS> {
 pub const fn from_words(arr: [Word; LIMBS]) -> (ret__: Self)
+//@+
+    ensures forall|k: int| 0 <= k < LIMBS ==> ret__.limbs@[k].0 == arr@[k]
+//@-
 {
         let mut limbs = [Limb::ZERO; LIMBS];
         let mut i = 0;
         while i < LIMBS
+//@+
+    invariant i <= LIMBS, forall|k: int| 0 <= k < i ==> limbs@[k].0 == arr@[k],
+    decreases LIMBS - i,
+//@-
 {
             limbs[i] = Limb(arr[i]);
             i += 1;
@@ -62,10 +260,17 @@ pub const fn from_words(arr: [Word; LIMBS]) -> (ret__: Self)
 //@@ fn src/uint.rs | impl<const LIMBS: usize> Uint<LIMBS> | to_words | body | props C16 C11
 impl<const LIMBS: usize> Uint<LIMBS> {
 pub const fn to_words(self) -> (ret__: [Word; LIMBS])
+//@+
+    ensures forall|k: int| 0 <= k < LIMBS ==> ret__@[k] == self.limbs@[k].0
+//@-
 {
         let mut arr = [0; LIMBS];
         let mut i = 0;
         while i < LIMBS
+//@+
+    invariant i <= LIMBS, forall|k: int| 0 <= k < i ==> arr@[k] == self.limbs@[k].0,
+    decreases LIMBS - i,
+//@-
 {
             arr[i] = self.limbs[i].0;
             i += 1;
@@ -77,7 +282,14 @@ pub const fn to_words(self) -> (ret__: [Word; LIMBS])
 //@@ const src/int.rs | impl<const LIMBS: usize> Int<LIMBS> | ZERO
 impl<const LIMBS: usize> Int<LIMBS> {
 pub const fn ZERO() -> (ret__: Self)
+//@+
+    requires LIMBS >= 1
+    ensures ret__.0.v() == 0, ret__.iv() == 0
+//@-
 {
+//@+
+    proof { lemma_half(LIMBS as nat); }
+//@-
     Self(Uint::ZERO())
 }
 }
@@ -85,7 +297,14 @@ pub const fn ZERO() -> (ret__: Self)
 //@@ const src/int.rs | impl<const LIMBS: usize> Int<LIMBS> | ONE
 impl<const LIMBS: usize> Int<LIMBS> {
 pub const fn ONE() -> (ret__: Self)
+//@+
+    requires LIMBS >= 1
+    ensures ret__.0.v() == 1, ret__.iv() == 1
+//@-
 {
+//@+
+    proof { lemma_half(LIMBS as nat); }
+//@-
     Self(Uint::ONE())
 }
 }
@@ -93,7 +312,14 @@ pub const fn ONE() -> (ret__: Self)
 //@@ const src/int.rs | impl<const LIMBS: usize> Int<LIMBS> | FULL_MASK
 impl<const LIMBS: usize> Int<LIMBS> {
 pub const fn FULL_MASK() -> (ret__: Self)
+//@+
+    requires LIMBS >= 1
+    ensures ret__.0.v() == bp(LIMBS as nat) - 1, ret__.iv() == -1, forall|k: int| 0 <= k < LIMBS ==> ret__.0.limbs@[k].0 == u64::MAX
+//@-
 {
+//@+
+    proof { lemma_half(LIMBS as nat); }
+//@-
     Self(Uint::MAX())
 }
 }
@@ -101,6 +327,10 @@ pub const fn FULL_MASK() -> (ret__: Self)
 //@@ const src/int.rs | impl<const LIMBS: usize> Int<LIMBS> | MINUS_ONE
 impl<const LIMBS: usize> Int<LIMBS> {
 pub const fn MINUS_ONE() -> (ret__: Self)
+//@+
+    requires LIMBS >= 1
+    ensures ret__.0.v() == bp(LIMBS as nat) - 1, ret__.iv() == -1, forall|k: int| 0 <= k < LIMBS ==> ret__.0.limbs@[k].0 == u64::MAX
+//@-
 {
     Self::FULL_MASK()
 }
@@ -109,7 +339,14 @@ pub const fn MINUS_ONE() -> (ret__: Self)
 //@@ const src/int.rs | impl<const LIMBS: usize> Int<LIMBS> | MAX
 impl<const LIMBS: usize> Int<LIMBS> {
 pub const fn MAX() -> (ret__: Self)
+//@+
+    requires 1 <= LIMBS < 0x400_0000
+    ensures ret__.0.v() == ih(LIMBS as nat) - 1, ret__.iv() == ih(LIMBS as nat) - 1
+//@-
 {
+//@+
+    proof { lemma_half(LIMBS as nat); lemma_pow2_64(); }
+//@-
     Self(Uint::MAX().shr(1u32))
 }
 }
@@ -117,7 +354,16 @@ pub const fn MAX() -> (ret__: Self)
 //@@ const src/int.rs | impl<const LIMBS: usize> Int<LIMBS> | MIN
 impl<const LIMBS: usize> Int<LIMBS> {
 pub const fn MIN() -> (ret__: Self)
+//@+
+    requires 1 <= LIMBS < 0x400_0000
+    ensures ret__.0.v() == ih(LIMBS as nat), ret__.iv() == -ih(LIMBS as nat), is_top_bit(ret__.0.limbs@, LIMBS as nat)
+//@-
 {
+//@+
+    proof { lemma_half(LIMBS as nat); lemma_pow2_64(); }
+    assert forall|a: Seq<Limb>, m: Seq<Limb>, r: Seq<Limb>| (forall|k: int| 0 <= k < LIMBS ==> a[k].0 == u64::MAX) && val(m, LIMBS as nat) == ih(LIMBS as nat) - 1 && #[trigger] is_xor(a, m, r, LIMBS as nat)
+        implies val(r, LIMBS as nat) == ih(LIMBS as nat) && is_top_bit(r, LIMBS as nat) by { lemma_min_bits(a, m, r, LIMBS as nat); }
+//@-
     Self(Uint::MAX().bitxor(&Uint::MAX().shr(1u32)))
 }
 }
@@ -125,6 +371,10 @@ pub const fn MIN() -> (ret__: Self)
 //@@ const src/int.rs | impl<const LIMBS: usize> Int<LIMBS> | SIGN_MASK
 impl<const LIMBS: usize> Int<LIMBS> {
 pub const fn SIGN_MASK() -> (ret__: Self)
+//@+
+    requires 1 <= LIMBS < 0x400_0000
+    ensures ret__.0.v() == ih(LIMBS as nat), ret__.iv() == -ih(LIMBS as nat), is_top_bit(ret__.0.limbs@, LIMBS as nat)
+//@-
 {
     Self::MIN()
 }
@@ -133,6 +383,10 @@ pub const fn SIGN_MASK() -> (ret__: Self)
 //@@ const src/int.rs | impl<const LIMBS: usize> Int<LIMBS> | BITS
 impl<const LIMBS: usize> Int<LIMBS> {
 pub const fn BITS() -> (ret__: u32)
+//@+
+    requires LIMBS < 0x400_0000
+    ensures ret__ as int == 64 * LIMBS
+//@-
 {
     Uint::<LIMBS>::BITS()
 }
@@ -141,6 +395,9 @@ pub const fn BITS() -> (ret__: u32)
 //@@ const src/int.rs | impl<const LIMBS: usize> Int<LIMBS> | LIMBS
 impl<const LIMBS: usize> Int<LIMBS> {
 pub const fn LIMBS() -> (ret__: usize)
+//@+
+    ensures ret__ == LIMBS
+//@-
 {
     LIMBS
 }
@@ -149,6 +406,9 @@ pub const fn LIMBS() -> (ret__: usize)
 //@@ fn src/int.rs | impl<const LIMBS: usize> Int<LIMBS> | new | body | props C13 C11
 impl<const LIMBS: usize> Int<LIMBS> {
 pub const fn new(limbs: [Limb; LIMBS]) -> (ret__: Self)
+//@+
+    ensures ret__.0.limbs == limbs
+//@-
 {
         Self(Uint::new(limbs))
     }
@@ -157,6 +417,9 @@ pub const fn new(limbs: [Limb; LIMBS]) -> (ret__: Self)
 //@@ fn src/int.rs | impl<const LIMBS: usize> Int<LIMBS> | from_bits | body | props C13 C11
 impl<const LIMBS: usize> Int<LIMBS> {
 pub const fn from_bits(value: Uint<LIMBS>) -> (ret__: Self)
+//@+
+    ensures ret__.0 == value
+//@-
 {
         Self(value)
     }
@@ -165,6 +428,9 @@ pub const fn from_bits(value: Uint<LIMBS>) -> (ret__: Self)
 //@@ fn src/int.rs | impl<const LIMBS: usize> Int<LIMBS> | from_words | body | props C13 C11
 impl<const LIMBS: usize> Int<LIMBS> {
 pub const fn from_words(arr: [Word; LIMBS]) -> (ret__: Self)
+//@+
+    ensures forall|k: int| 0 <= k < LIMBS ==> ret__.0.limbs@[k].0 == arr@[k]
+//@-
 {
         Self(Uint::from_words(arr))
     }
@@ -173,6 +439,9 @@ pub const fn from_words(arr: [Word; LIMBS]) -> (ret__: Self)
 //@@ fn src/int.rs | impl<const LIMBS: usize> Int<LIMBS> | to_words | body | props C13 C11
 impl<const LIMBS: usize> Int<LIMBS> {
 pub const fn to_words(self) -> (ret__: [Word; LIMBS])
+//@+
+    ensures forall|k: int| 0 <= k < LIMBS ==> ret__@[k] == self.0.limbs@[k].0
+//@-
 {
         self.0.to_words()
     }
@@ -181,6 +450,9 @@ pub const fn to_words(self) -> (ret__: [Word; LIMBS])
 //@@ fn src/int.rs | impl<const LIMBS: usize> Int<LIMBS> | as_limbs | body | props C13 C11
 impl<const LIMBS: usize> Int<LIMBS> {
 pub const fn as_limbs(&self) -> (ret__: &[Limb; LIMBS])
+//@+
+    ensures *ret__ == self.0.limbs
+//@-
 {
         self.0.as_limbs()
     }
@@ -189,6 +461,9 @@ pub const fn as_limbs(&self) -> (ret__: &[Limb; LIMBS])
 //@@ fn src/int.rs | impl<const LIMBS: usize> Int<LIMBS> | to_limbs | body | props C13 C11
 impl<const LIMBS: usize> Int<LIMBS> {
 pub const fn to_limbs(self) -> (ret__: [Limb; LIMBS])
+//@+
+    ensures ret__ == self.0.limbs
+//@-
 {
         self.0.to_limbs()
     }
@@ -197,7 +472,13 @@ pub const fn to_limbs(self) -> (ret__: [Limb; LIMBS])
 //@@ fn src/int.rs | impl<const LIMBS: usize> Int<LIMBS> | to_nz | body | props C13 C11
 impl<const LIMBS: usize> Int<LIMBS> {
 pub const fn to_nz(self) -> (ret__: ConstCtOption<NonZero<Self>>)
+//@+
+    ensures ret__.value.0 == self, ret__.is_some.wf(), ret__.is_some.t() == (self.iv() != 0)
+//@-
 {
+//@+
+    proof { lemma_val_bound(self.0.limbs@, LIMBS as nat); }
+//@-
         ConstCtOption::new(NonZero(self), self.0.is_nonzero())
     }
 }
@@ -205,7 +486,14 @@ pub const fn to_nz(self) -> (ret__: ConstCtOption<NonZero<Self>>)
 //@@ fn src/int.rs | impl<const LIMBS: usize> Int<LIMBS> | to_odd | body | props C13 C11
 impl<const LIMBS: usize> Int<LIMBS> {
 pub const fn to_odd(self) -> (ret__: ConstCtOption<Odd<Self>>)
+//@+
+    requires LIMBS >= 1
+    ensures ret__.value.0 == self, ret__.is_some.wf(), ret__.is_some.t() == (self.iv() % 2 == 1)
+//@-
 {
+//@+
+    proof { lemma_val_bound(self.0.limbs@, LIMBS as nat); lemma_half(LIMBS as nat); }
+//@-
         ConstCtOption::new(Odd(self), self.0.is_odd())
     }
 }
@@ -213,6 +501,9 @@ pub const fn to_odd(self) -> (ret__: ConstCtOption<Odd<Self>>)
 //@@ fn src/int.rs | impl<const LIMBS: usize> Int<LIMBS> | as_uint | body | props C13 C11
 impl<const LIMBS: usize> Int<LIMBS> {
 pub const fn as_uint(&self) -> (ret__: &Uint<LIMBS>)
+//@+
+    ensures *ret__ == self.0
+//@-
 {
         &self.0
     }
@@ -221,7 +512,14 @@ pub const fn as_uint(&self) -> (ret__: &Uint<LIMBS>)
 //@@ fn src/int.rs | impl<const LIMBS: usize> Int<LIMBS> | is_min | body | props C13 C11
 impl<const LIMBS: usize> Int<LIMBS> {
 pub const fn is_min(&self) -> (ret__: ConstChoice)
+//@+
+    requires 1 <= LIMBS < 0x400_0000
+    ensures ret__.wf(), ret__.t() == (self.iv() == -ih(LIMBS as nat))
+//@-
 {
+//@+
+    proof { lemma_val_bound(self.0.limbs@, LIMBS as nat); lemma_half(LIMBS as nat); }
+//@-
         Self::eq(self, &Self::MIN())
     }
 }
@@ -229,7 +527,14 @@ pub const fn is_min(&self) -> (ret__: ConstChoice)
 //@@ fn src/int.rs | impl<const LIMBS: usize> Int<LIMBS> | is_max | body | props C13 C11
 impl<const LIMBS: usize> Int<LIMBS> {
 pub fn is_max(&self) -> (ret__: ConstChoice)
+//@+
+    requires 1 <= LIMBS < 0x400_0000
+    ensures ret__.wf(), ret__.t() == (self.iv() == ih(LIMBS as nat) - 1)
+//@-
 {
+//@+
+    proof { lemma_val_bound(self.0.limbs@, LIMBS as nat); lemma_half(LIMBS as nat); }
+//@-
         Self::eq(self, &Self::MAX())
     }
 }
@@ -237,7 +542,15 @@ pub fn is_max(&self) -> (ret__: ConstChoice)
 //@@ fn src/int.rs | impl<const LIMBS: usize> Int<LIMBS> | invert_msb | body | props C13 C11
 impl<const LIMBS: usize> Int<LIMBS> {
 pub const fn invert_msb(&self) -> (ret__: Self)
+//@+
+    requires 1 <= LIMBS < 0x400_0000
+    ensures ret__.0.v() == self.iv() + ih(LIMBS as nat)
+//@-
 {
+//@+
+    assert forall|m: Seq<Limb>, r: Seq<Limb>| is_top_bit(m, LIMBS as nat) && #[trigger] is_xor(self.0.limbs@, m, r, LIMBS as nat)
+        implies val(r, LIMBS as nat) == iv_of(val(self.0.limbs@, LIMBS as nat), LIMBS as nat) + ih(LIMBS as nat) by { lemma_flip_top(self.0.limbs@, m, r, LIMBS as nat); }
+//@-
         Self(self.0.bitxor(&Self::SIGN_MASK().0))
     }
 }
@@ -245,6 +558,10 @@ pub const fn invert_msb(&self) -> (ret__: Self)
 //@@ fn src/int/cmp.rs | impl<const LIMBS: usize> Int<LIMBS> | select | body | props C13 C06 C11
 impl<const LIMBS: usize> Int<LIMBS> {
 pub const fn select(a: &Self, b: &Self, c: ConstChoice) -> (ret__: Self)
+//@+
+    requires c.wf()
+    ensures ret__ == (if c.t() { *b } else { *a })
+//@-
 {
         Self(Uint::select(&a.0, &b.0, c))
     }
@@ -253,7 +570,13 @@ pub const fn select(a: &Self, b: &Self, c: ConstChoice) -> (ret__: Self)
 //@@ fn src/int/cmp.rs | impl<const LIMBS: usize> Int<LIMBS> | is_nonzero | body | props C13 C06 C11
 impl<const LIMBS: usize> Int<LIMBS> {
 pub const fn is_nonzero(&self) -> (ret__: ConstChoice)
+//@+
+    ensures ret__.wf(), ret__.t() == (self.iv() != 0)
+//@-
 {
+//@+
+    proof { lemma_val_bound(self.0.limbs@, LIMBS as nat); }
+//@-
         Uint::is_nonzero(&self.0)
     }
 }
@@ -261,7 +584,13 @@ pub const fn is_nonzero(&self) -> (ret__: ConstChoice)
 //@@ fn src/int/cmp.rs | impl<const LIMBS: usize> Int<LIMBS> | eq | body | props C13 C06 C11
 impl<const LIMBS: usize> Int<LIMBS> {
 pub const fn eq(lhs: &Self, rhs: &Self) -> (ret__: ConstChoice)
+//@+
+    ensures ret__.wf(), ret__.t() == (lhs.iv() == rhs.iv()), ret__.t() == (lhs.0.v() == rhs.0.v())
+//@-
 {
+//@+
+    proof { lemma_val_bound(lhs.0.limbs@, LIMBS as nat); lemma_val_bound(rhs.0.limbs@, LIMBS as nat); }
+//@-
         Uint::eq(&lhs.0, &rhs.0)
     }
 }
@@ -269,6 +598,10 @@ pub const fn eq(lhs: &Self, rhs: &Self) -> (ret__: ConstChoice)
 //@@ fn src/int/cmp.rs | impl<const LIMBS: usize> Int<LIMBS> | lt | body | props C13 C06 C11
 impl<const LIMBS: usize> Int<LIMBS> {
 pub const fn lt(lhs: &Self, rhs: &Self) -> (ret__: ConstChoice)
+//@+
+    requires 1 <= LIMBS < 0x400_0000
+    ensures ret__.wf(), ret__.t() == (lhs.iv() < rhs.iv())
+//@-
 {
         Uint::lt(&lhs.invert_msb().0, &rhs.invert_msb().0)
     }
@@ -277,6 +610,10 @@ pub const fn lt(lhs: &Self, rhs: &Self) -> (ret__: ConstChoice)
 //@@ fn src/int/cmp.rs | impl<const LIMBS: usize> Int<LIMBS> | gt | body | props C13 C06 C11
 impl<const LIMBS: usize> Int<LIMBS> {
 pub const fn gt(lhs: &Self, rhs: &Self) -> (ret__: ConstChoice)
+//@+
+    requires 1 <= LIMBS < 0x400_0000
+    ensures ret__.wf(), ret__.t() == (lhs.iv() > rhs.iv())
+//@-
 {
         Uint::gt(&lhs.invert_msb().0, &rhs.invert_msb().0)
     }
@@ -285,6 +622,10 @@ pub const fn gt(lhs: &Self, rhs: &Self) -> (ret__: ConstChoice)
 //@@ fn src/int/cmp.rs | impl<const LIMBS: usize> Int<LIMBS> | cmp | body | props C13 C06 C11
 impl<const LIMBS: usize> Int<LIMBS> {
 pub const fn cmp(lhs: &Self, rhs: &Self) -> (ret__: i8)
+//@+
+    requires 1 <= LIMBS < 0x400_0000
+    ensures ret__ as int == (if lhs.iv() < rhs.iv() { -1int } else if lhs.iv() == rhs.iv() { 0int } else { 1int })
+//@-
 {
         Uint::cmp(&lhs.invert_msb().0, &rhs.invert_msb().0)
     }
@@ -293,6 +634,10 @@ pub const fn cmp(lhs: &Self, rhs: &Self) -> (ret__: i8)
 //@@ fn src/int/cmp.rs | impl<const LIMBS: usize> Int<LIMBS> | cmp_vartime | body | props C13 C06 C11
 impl<const LIMBS: usize> Int<LIMBS> {
 pub const fn cmp_vartime(&self, rhs: &Self) -> (ret__: Ordering)
+//@+
+    requires 1 <= LIMBS < 0x400_0000
+    ensures (ret__ == Ordering::Less) == (self.iv() < rhs.iv()), (ret__ == Ordering::Equal) == (self.iv() == rhs.iv()), (ret__ == Ordering::Greater) == (self.iv() > rhs.iv())
+//@-
 {
         self.invert_msb().0.cmp_vartime(&rhs.invert_msb().0)
     }
@@ -301,6 +646,9 @@ pub const fn cmp_vartime(&self, rhs: &Self) -> (ret__: Ordering)
 //@@ fn src/int/sign.rs | impl<const LIMBS: usize> Int<LIMBS> | most_significant_word | body | props C13 C11
 impl<const LIMBS: usize> Int<LIMBS> {
 pub const fn most_significant_word(&self) -> (ret__: Word)
+//@+
+    ensures LIMBS == 0 ==> ret__ == 0, LIMBS >= 1 ==> ret__ == self.0.limbs@[LIMBS - 1].0
+//@-
 {
         if Self::LIMBS() == 0 {
             Word::ZERO
@@ -313,7 +661,16 @@ pub const fn most_significant_word(&self) -> (ret__: Word)
 //@@ fn src/int/sign.rs | impl<const LIMBS: usize> Int<LIMBS> | is_negative | body | props C13 C11
 impl<const LIMBS: usize> Int<LIMBS> {
 pub const fn is_negative(&self) -> (ret__: ConstChoice)
+//@+
+    ensures ret__.wf(), ret__.t() == (self.iv() < 0), ret__.t() == (2 * self.0.v() >= bp(LIMBS as nat))
+//@-
 {
+//@+
+    proof {
+        lemma_val_bound(self.0.limbs@, LIMBS as nat); lemma_bp1();
+        if LIMBS >= 1 { lemma_top_bit(self.0.limbs@, LIMBS as nat); }
+    }
+//@-
         ConstChoice::from_word_msb(self.most_significant_word())
     }
 }
@@ -321,6 +678,9 @@ pub const fn is_negative(&self) -> (ret__: ConstChoice)
 //@@ fn src/int/sign.rs | impl<const LIMBS: usize> Int<LIMBS> | is_positive | body | props C13 C11
 impl<const LIMBS: usize> Int<LIMBS> {
 pub const fn is_positive(&self) -> (ret__: ConstChoice)
+//@+
+    ensures ret__.wf(), ret__.t() == (self.iv() > 0)
+//@-
 {
         self.is_negative().not().and(self.is_nonzero())
     }
@@ -329,7 +689,21 @@ pub const fn is_positive(&self) -> (ret__: ConstChoice)
 //@@ fn src/int/neg.rs | impl<const LIMBS: usize> Int<LIMBS> | wrapping_neg_if | body | props C13 C11
 impl<const LIMBS: usize> Int<LIMBS> {
 pub const fn wrapping_neg_if(&self, negate: ConstChoice) -> (ret__: Int<LIMBS>)
+//@+
+    requires negate.wf()
+    ensures ret__.0.v() == (if negate.t() { (bp(LIMBS as nat) - self.0.v()) % bp(LIMBS as nat) } else { self.0.v() }),
+        !negate.t() ==> ret__.iv() == self.iv(),
+        LIMBS >= 1 && negate.t() ==> ret__.iv() == wrap_i(-self.iv(), LIMBS as nat),
+        LIMBS >= 1 && negate.t() && self.iv() != -ih(LIMBS as nat) ==> ret__.iv() == -self.iv(),
+        LIMBS >= 1 && negate.t() && self.iv() == -ih(LIMBS as nat) ==> ret__.iv() == self.iv()
+//@-
 {
+//@+
+    proof {
+        lemma_val_bound(self.0.limbs@, LIMBS as nat);
+        if LIMBS >= 1 { lemma_ineg(self.0.v(), (bp(LIMBS as nat) - self.0.v()) % bp(LIMBS as nat), LIMBS as nat); }
+    }
+//@-
         Self(self.0.wrapping_neg_if(negate))
     }
 }
@@ -337,7 +711,18 @@ pub const fn wrapping_neg_if(&self, negate: ConstChoice) -> (ret__: Int<LIMBS>)
 //@@ fn src/int/sign.rs | impl<const LIMBS: usize> Int<LIMBS> | abs_sign | body | props C13 C11
 impl<const LIMBS: usize> Int<LIMBS> {
 pub const fn abs_sign(&self) -> (ret__: (Uint<LIMBS>, ConstChoice))
+//@+
+    requires LIMBS >= 1
+    ensures ret__.1.wf(), ret__.1.t() == (self.iv() < 0), ret__.0.v() == abs_i(self.iv()), 0 <= ret__.0.v() <= ih(LIMBS as nat)
+//@-
 {
+//@+
+    proof {
+        lemma_val_bound(self.0.limbs@, LIMBS as nat);
+        lemma_ineg(self.0.v(), (bp(LIMBS as nat) - self.0.v()) % bp(LIMBS as nat), LIMBS as nat);
+        lemma_iv_bounds(self.0.v(), LIMBS as nat);
+    }
+//@-
         let sign = self.is_negative();
         // Note: this negate_if is safe to use, since we are negating based on self.is_negative()
         let abs = self.wrapping_neg_if(sign);
@@ -348,6 +733,10 @@ pub const fn abs_sign(&self) -> (ret__: (Uint<LIMBS>, ConstChoice))
 //@@ fn src/int/sign.rs | impl<const LIMBS: usize> Int<LIMBS> | abs | body | props C13 C11
 impl<const LIMBS: usize> Int<LIMBS> {
 pub const fn abs(&self) -> (ret__: Uint<LIMBS>)
+//@+
+    requires LIMBS >= 1
+    ensures ret__.v() == abs_i(self.iv()), 0 <= ret__.v() <= ih(LIMBS as nat)
+//@-
 {
         self.abs_sign().0
     }
@@ -359,7 +748,20 @@ pub const fn new_from_abs_sign(
         abs: Uint<LIMBS>,
         is_negative: ConstChoice,
     ) -> (ret__: ConstCtOption<Self>)
+//@+
+    requires 1 <= LIMBS < 0x400_0000, is_negative.wf()
+    ensures ret__.is_some.wf(),
+        ret__.is_some.t() == (abs.v() <= ih(LIMBS as nat) - 1 || (is_negative.t() && abs.v() == ih(LIMBS as nat))),
+        ret__.is_some.t() ==> ret__.value.iv() == (if is_negative.t() { -abs.v() } else { abs.v() }),
+        ret__.value.0.v() == (if is_negative.t() { (bp(LIMBS as nat) - abs.v()) % bp(LIMBS as nat) } else { abs.v() })
+//@-
 {
+//@+
+    proof {
+        lemma_val_bound(abs.limbs@, LIMBS as nat); lemma_half(LIMBS as nat);
+        if abs.v() <= ih(LIMBS as nat) { lemma_neg_mag(abs.v(), (bp(LIMBS as nat) - abs.v()) % bp(LIMBS as nat), LIMBS as nat); }
+    }
+//@-
         let magnitude = Self(abs).wrapping_neg_if(is_negative);
         let fits = Uint::lte(&abs, &Int::MAX().0).or(is_negative.and(Uint::eq(&abs, &Int::MIN().0)));
         ConstCtOption::new(magnitude, fits)
@@ -369,7 +771,19 @@ pub const fn new_from_abs_sign(
 //@@ fn src/int/add.rs | impl<const LIMBS: usize> Int<LIMBS> | wrapping_add | body | props C13 C11
 impl<const LIMBS: usize> Int<LIMBS> {
 pub const fn wrapping_add(&self, rhs: &Self) -> (ret__: Self)
+//@+
+    requires LIMBS >= 1
+    ensures ret__.0.v() == (self.0.v() + rhs.0.v()) % bp(LIMBS as nat),
+        ret__.iv() == wrap_i(self.iv() + rhs.iv(), LIMBS as nat),
+        in_range(self.iv() + rhs.iv(), LIMBS as nat) ==> ret__.iv() == self.iv() + rhs.iv()
+//@-
 {
+//@+
+    proof {
+        lemma_val_bound(self.0.limbs@, LIMBS as nat); lemma_val_bound(rhs.0.limbs@, LIMBS as nat);
+        lemma_iadd(self.0.v(), rhs.0.v(), (self.0.v() + rhs.0.v()) % bp(LIMBS as nat), LIMBS as nat);
+    }
+//@-
         Self(self.0.wrapping_add(&rhs.0))
     }
 }
@@ -377,7 +791,19 @@ pub const fn wrapping_add(&self, rhs: &Self) -> (ret__: Self)
 //@@ fn src/int/add.rs | impl<const LIMBS: usize> Int<LIMBS> | overflowing_add | body | props C13 C11
 impl<const LIMBS: usize> Int<LIMBS> {
 pub const fn overflowing_add(&self, rhs: &Self) -> (ret__: (Self, ConstChoice))
+//@+
+    requires LIMBS >= 1
+    ensures ret__.1.wf(), ret__.1.t() == !in_range(self.iv() + rhs.iv(), LIMBS as nat),
+        ret__.0.iv() == wrap_i(self.iv() + rhs.iv(), LIMBS as nat),
+        !ret__.1.t() ==> ret__.0.iv() == self.iv() + rhs.iv()
+//@-
 {
+//@+
+    proof {
+        lemma_val_bound(self.0.limbs@, LIMBS as nat); lemma_val_bound(rhs.0.limbs@, LIMBS as nat);
+        lemma_iadd(self.0.v(), rhs.0.v(), (self.0.v() + rhs.0.v()) % bp(LIMBS as nat), LIMBS as nat);
+    }
+//@-
         // Step 1. add operands
         let res = Self(self.0.wrapping_add(&rhs.0));
         // Step 2. determine whether overflow happened.
@@ -398,6 +824,12 @@ pub const fn overflowing_add(&self, rhs: &Self) -> (ret__: (Self, ConstChoice))
 //@@ fn src/int/add.rs | impl<const LIMBS: usize> Int<LIMBS> | checked_add | body | props C13 C11
 impl<const LIMBS: usize> Int<LIMBS> {
 pub const fn checked_add(&self, rhs: &Self) -> (ret__: ConstCtOption<Self>)
+//@+
+    requires LIMBS >= 1
+    ensures ret__.is_some.wf(), ret__.is_some.t() == in_range(self.iv() + rhs.iv(), LIMBS as nat),
+        ret__.is_some.t() ==> ret__.value.iv() == self.iv() + rhs.iv(),
+        ret__.value.iv() == wrap_i(self.iv() + rhs.iv(), LIMBS as nat)
+//@-
 {
         let (value, overflow) = self.overflowing_add(rhs);
         ConstCtOption::new(value, overflow.not())
@@ -407,7 +839,20 @@ pub const fn checked_add(&self, rhs: &Self) -> (ret__: ConstCtOption<Self>)
 //@@ fn src/int/neg.rs | impl<const LIMBS: usize> Int<LIMBS> | overflowing_neg | body | props C13 C11
 impl<const LIMBS: usize> Int<LIMBS> {
 pub const fn overflowing_neg(&self) -> (ret__: (Self, ConstChoice))
+//@+
+    requires LIMBS >= 1
+    ensures ret__.1.wf(), ret__.1.t() == (self.iv() == -ih(LIMBS as nat)),
+        ret__.0.iv() == wrap_i(-self.iv(), LIMBS as nat),
+        !ret__.1.t() ==> ret__.0.iv() == -self.iv(),
+        ret__.1.t() ==> ret__.0.iv() == self.iv()
+//@-
 {
+//@+
+    proof { lemma_val_bound(self.0.limbs@, LIMBS as nat); lemma_iv_bounds(self.0.v(), LIMBS as nat); lemma_half(LIMBS as nat); }
+    assert forall|m: Seq<Limb>, r: Seq<Limb>| (forall|k: int| 0 <= k < LIMBS ==> m[k].0 == u64::MAX) && #[trigger] is_xor(self.0.limbs@, m, r, LIMBS as nat)
+        implies iv_of(val(r, LIMBS as nat), LIMBS as nat) == -1 - self.iv() by { lemma_inot(self.0.limbs@, m, r, LIMBS as nat); }
+    proof { if self.iv() == -ih(LIMBS as nat) { lemma_wrap_shift(-ih(LIMBS as nat), 1, LIMBS as nat); lemma_wrap_id(-ih(LIMBS as nat), LIMBS as nat); } }
+//@-
         Self(self.0.bitxor(&Uint::MAX())).overflowing_add(&Int::ONE())
     }
 }
@@ -415,6 +860,12 @@ pub const fn overflowing_neg(&self) -> (ret__: (Self, ConstChoice))
 //@@ fn src/int/neg.rs | impl<const LIMBS: usize> Int<LIMBS> | wrapping_neg | body | props C13 C11
 impl<const LIMBS: usize> Int<LIMBS> {
 pub const fn wrapping_neg(&self) -> (ret__: Self)
+//@+
+    requires LIMBS >= 1
+    ensures ret__.iv() == wrap_i(-self.iv(), LIMBS as nat),
+        self.iv() != -ih(LIMBS as nat) ==> ret__.iv() == -self.iv(),
+        self.iv() == -ih(LIMBS as nat) ==> ret__.iv() == self.iv()
+//@-
 {
         self.overflowing_neg().0
     }
@@ -423,6 +874,11 @@ pub const fn wrapping_neg(&self) -> (ret__: Self)
 //@@ fn src/int/neg.rs | impl<const LIMBS: usize> Int<LIMBS> | checked_neg | body | props C13 C11
 impl<const LIMBS: usize> Int<LIMBS> {
 pub const fn checked_neg(&self) -> (ret__: ConstCtOption<Self>)
+//@+
+    requires LIMBS >= 1
+    ensures ret__.is_some.wf(), ret__.is_some.t() == (self.iv() != -ih(LIMBS as nat)),
+        ret__.is_some.t() ==> ret__.value.iv() == -self.iv()
+//@-
 {
         let (value, overflow) = self.overflowing_neg();
         ConstCtOption::new(value, overflow.not())
@@ -432,15 +888,40 @@ pub const fn checked_neg(&self) -> (ret__: ConstCtOption<Self>)
 //@@ fn src/int/resize.rs | impl<const LIMBS: usize> Int<LIMBS> | resize | body | props C13 C11
 impl<const LIMBS: usize> Int<LIMBS> {
 pub const fn resize<const T: usize>(&self) -> (ret__: Int<T>)
+//@+
+    requires LIMBS >= 1
+    ensures T >= LIMBS ==> ret__.iv() == self.iv(),
+        T < LIMBS ==> ret__.0.v() == self.0.v() % bp(T as nat)
+//@-
 {
         let mut limbs = [Limb::select(Limb::ZERO, Limb::MAX, self.is_negative()); T];
+//@+
+    let ghost fill = limbs@[0]; let ghost neg = self.iv() < 0;
+//@-
         let mut i = 0;
         let dim = if T < LIMBS { T } else { LIMBS };
         while i < dim
+//@+
+    invariant i <= dim, dim <= T, dim <= LIMBS, dim == (if T < LIMBS { T } else { LIMBS }),
+        forall|k: int| 0 <= k < i ==> limbs@[k] == self.0.limbs@[k],
+        forall|k: int| i <= k < T ==> limbs@[k].0 == (if neg { u64::MAX } else { 0u64 }),
+    decreases dim - i,
+//@-
 {
             limbs[i] = self.0.limbs[i];
             i += 1;
         }
+//@+
+    proof {
+        lemma_val_ext(limbs@, self.0.limbs@, dim as nat);
+        if T < LIMBS { lemma_val_mod(self.0.limbs@, T as nat, LIMBS as nat); }
+        else {
+            lemma_val_bound(self.0.limbs@, LIMBS as nat);
+            lemma_half(LIMBS as nat); lemma_half(T as nat); lemma_bp_mono(LIMBS as nat, T as nat);
+            if neg { lemma_tv_all_max(limbs@, LIMBS as nat, T as nat); } else { lemma_tv_all_zero(limbs@, LIMBS as nat, T as nat); }
+        }
+    }
+//@-
         Uint { limbs }.as_int()
     }
 }
@@ -448,8 +929,21 @@ pub const fn resize<const T: usize>(&self) -> (ret__: Int<T>)
 //@@ fn src/int/from.rs | impl<const LIMBS: usize> Int<LIMBS> | from_i8 | body | props C13 C11
 impl<const LIMBS: usize> Int<LIMBS> {
 pub const fn from_i8(n: i8) -> (ret__: Self)
+//@+
+    requires LIMBS >= 1
+    ensures ret__.iv() == n as int
+//@-
 {
         assert!(LIMBS >= 1, "number of limbs must be greater than zero");
+//@+
+    let ghost r = n as u64;
+    assert(n >= 0 ==> r == (n as u8) as u64) by (bit_vector) requires r == n as u64;
+    assert(n >= 0 ==> (n as u8) as i8 == n) by (bit_vector);
+    assert(n < 0 ==> r == 0xffff_ffff_ffff_ffffu64 - ((!n) as u64) && !n >= 0) by (bit_vector) requires r == n as u64;
+    assert(!n == -n - 1) by (bit_vector);
+    proof { lemma_bp1(); }
+    assert forall|s: Seq<Limb>| s[0].0 == r implies iv_of(#[trigger] val(s, 1), 1) == n as int by { lemma_val_single(s, 1); }
+//@-
         Uint::new([Limb(n as Word)]).as_int().resize()
     }
 }
@@ -457,8 +951,21 @@ pub const fn from_i8(n: i8) -> (ret__: Self)
 //@@ fn src/int/from.rs | impl<const LIMBS: usize> Int<LIMBS> | from_i16 | body | props C13 C11
 impl<const LIMBS: usize> Int<LIMBS> {
 pub const fn from_i16(n: i16) -> (ret__: Self)
+//@+
+    requires LIMBS >= 1
+    ensures ret__.iv() == n as int
+//@-
 {
         assert!(LIMBS >= 1, "number of limbs must be greater than zero");
+//@+
+    let ghost r = n as u64;
+    assert(n >= 0 ==> r == (n as u16) as u64) by (bit_vector) requires r == n as u64;
+    assert(n >= 0 ==> (n as u16) as i16 == n) by (bit_vector);
+    assert(n < 0 ==> r == 0xffff_ffff_ffff_ffffu64 - ((!n) as u64) && !n >= 0) by (bit_vector) requires r == n as u64;
+    assert(!n == -n - 1) by (bit_vector);
+    proof { lemma_bp1(); }
+    assert forall|s: Seq<Limb>| s[0].0 == r implies iv_of(#[trigger] val(s, 1), 1) == n as int by { lemma_val_single(s, 1); }
+//@-
         Uint::new([Limb(n as Word)]).as_int().resize()
     }
 }
@@ -466,8 +973,21 @@ pub const fn from_i16(n: i16) -> (ret__: Self)
 //@@ fn src/int/from.rs | impl<const LIMBS: usize> Int<LIMBS> | from_i32 | body | props C13 C11
 impl<const LIMBS: usize> Int<LIMBS> {
 pub const fn from_i32(n: i32) -> (ret__: Self)
+//@+
+    requires LIMBS >= 1
+    ensures ret__.iv() == n as int
+//@-
 {
         assert!(LIMBS >= 1, "number of limbs must be greater than zero");
+//@+
+    let ghost r = n as u64;
+    assert(n >= 0 ==> r == (n as u32) as u64) by (bit_vector) requires r == n as u64;
+    assert(n >= 0 ==> (n as u32) as i32 == n) by (bit_vector);
+    assert(n < 0 ==> r == 0xffff_ffff_ffff_ffffu64 - ((!n) as u64) && !n >= 0) by (bit_vector) requires r == n as u64;
+    assert(!n == -n - 1) by (bit_vector);
+    proof { lemma_bp1(); }
+    assert forall|s: Seq<Limb>| s[0].0 == r implies iv_of(#[trigger] val(s, 1), 1) == n as int by { lemma_val_single(s, 1); }
+//@-
         Uint::new([Limb(n as Word)]).as_int().resize()
     }
 }
@@ -475,8 +995,21 @@ pub const fn from_i32(n: i32) -> (ret__: Self)
 //@@ fn src/int/from.rs | impl<const LIMBS: usize> Int<LIMBS> | from_i64 | body | props C13 C11
 impl<const LIMBS: usize> Int<LIMBS> {
 pub const fn from_i64(n: i64) -> (ret__: Self)
+//@+
+    requires LIMBS >= 1
+    ensures ret__.iv() == n as int
+//@-
 {
         assert!(LIMBS >= 1, "number of limbs must be greater than zero");
+//@+
+    let ghost r = n as u64;
+    assert(n >= 0 ==> r == (n as u64) as u64) by (bit_vector) requires r == n as u64;
+    assert(n >= 0 ==> (n as u64) as i64 == n) by (bit_vector);
+    assert(n < 0 ==> r == 0xffff_ffff_ffff_ffffu64 - ((!n) as u64) && !n >= 0) by (bit_vector) requires r == n as u64;
+    assert(!n == -n - 1) by (bit_vector);
+    proof { lemma_bp1(); }
+    assert forall|s: Seq<Limb>| s[0].0 == r implies iv_of(#[trigger] val(s, 1), 1) == n as int by { lemma_val_single(s, 1); }
+//@-
         Uint::new([Limb(n as Word)]).as_int().resize()
     }
 }
@@ -487,6 +1020,12 @@ pub const fn split_mul<const RHS_LIMBS: usize>(
         &self,
         rhs: &Int<RHS_LIMBS>,
     ) -> (ret__: (Uint<{ LIMBS }>, Uint<{ RHS_LIMBS }>, ConstChoice))
+//@+
+    requires LIMBS >= 1, RHS_LIMBS >= 1
+    ensures ret__.2.wf(), ret__.2.t() == ((self.iv() < 0) != (rhs.iv() < 0)),
+        ret__.0.v() + ret__.1.v() * bp(LIMBS as nat) == abs_i(self.iv()) * abs_i(rhs.iv()),
+        (ret__.0.v() + ret__.1.v() * bp(LIMBS as nat)) * (if ret__.2.t() { -1int } else { 1int }) == self.iv() * rhs.iv()
+//@-
 {
         // Step 1: split operands into their signs and magnitudes.
         let (lhs_abs, lhs_sgn) = self.abs_sign();
@@ -498,6 +1037,9 @@ pub const fn split_mul<const RHS_LIMBS: usize>(
         // Note: if either operand is zero, the resulting magnitude will also be zero. Negating
         // zero, however, still yields zero, so having a truthy `negate` in that scenario is OK.
         let negate = lhs_sgn.xor(rhs_sgn);
+//@+
+    proof { lemma_sign_mul(self.iv(), rhs.iv()); }
+//@-
         (lo, hi, negate)
     }
 }
@@ -505,7 +1047,16 @@ pub const fn split_mul<const RHS_LIMBS: usize>(
 //@@ fn src/int/mul.rs | impl<const LIMBS: usize> Int<LIMBS> | checked_square | body | props C13 C11
 impl<const LIMBS: usize> Int<LIMBS> {
 pub fn checked_square(&self) -> (ret__: ConstCtOption<Uint<LIMBS>>)
+//@+
+    requires LIMBS >= 1
+    ensures ret__.is_some.wf(), ret__.is_some.t() == (self.iv() * self.iv() < bp(LIMBS as nat)),
+        ret__.value.v() == (self.iv() * self.iv()) % bp(LIMBS as nat),
+        ret__.is_some.t() ==> ret__.value.v() == self.iv() * self.iv()
+//@-
 {
+//@+
+    proof { lemma_sign_mul(self.iv(), self.iv()); }
+//@-
         self.abs().checked_square()
     }
 }
@@ -513,7 +1064,14 @@ pub fn checked_square(&self) -> (ret__: ConstCtOption<Uint<LIMBS>>)
 //@@ fn src/int/mul.rs | impl<const LIMBS: usize> Int<LIMBS> | wrapping_square | body | props C13 C11
 impl<const LIMBS: usize> Int<LIMBS> {
 pub const fn wrapping_square(&self) -> (ret__: Uint<LIMBS>)
+//@+
+    requires LIMBS >= 1
+    ensures ret__.v() == (self.iv() * self.iv()) % bp(LIMBS as nat)
+//@-
 {
+//@+
+    proof { lemma_sign_mul(self.iv(), self.iv()); }
+//@-
         self.abs().wrapping_square()
     }
 }
@@ -521,7 +1079,14 @@ pub const fn wrapping_square(&self) -> (ret__: Uint<LIMBS>)
 //@@ fn src/int/mul.rs | impl<const LIMBS: usize> Int<LIMBS> | saturating_square | body | props C13 C11
 impl<const LIMBS: usize> Int<LIMBS> {
 pub const fn saturating_square(&self) -> (ret__: Uint<LIMBS>)
+//@+
+    requires LIMBS >= 1
+    ensures ret__.v() == min_int(self.iv() * self.iv(), bp(LIMBS as nat) - 1)
+//@-
 {
+//@+
+    proof { lemma_sign_mul(self.iv(), self.iv()); }
+//@-
         self.abs().saturating_square()
     }
 }
@@ -532,12 +1097,21 @@ pub const fn split_mul_uint<const RHS_LIMBS: usize>(
         &self,
         rhs: &Uint<RHS_LIMBS>,
     ) -> (ret__: (Uint<{ LIMBS }>, Uint<{ RHS_LIMBS }>, ConstChoice))
+//@+
+    requires LIMBS >= 1, RHS_LIMBS >= 1
+    ensures ret__.2.wf(), ret__.2.t() == (self.iv() < 0),
+        ret__.0.v() + ret__.1.v() * bp(LIMBS as nat) == abs_i(self.iv()) * rhs.v(),
+        (ret__.0.v() + ret__.1.v() * bp(LIMBS as nat)) * (if ret__.2.t() { -1int } else { 1int }) == self.iv() * rhs.v()
+//@-
 {
         // Step 1. split self into its sign and magnitude.
         let (lhs_abs, lhs_sgn) = self.abs_sign();
         // Step 2. Multiply the magnitudes
         let (lo, hi) = lhs_abs.split_mul(rhs);
         // Step 3. negate if and only if self has a negative sign.
+//@+
+    proof { lemma_sign_mul(self.iv(), rhs.v()); lemma_val_bound(rhs.limbs@, RHS_LIMBS as nat); }
+//@-
         (lo, hi, lhs_sgn)
     }
 }
@@ -548,9 +1122,18 @@ pub const fn split_mul_uint_right<const RHS_LIMBS: usize>(
         &self,
         rhs: &Uint<RHS_LIMBS>,
     ) -> (ret__: (Uint<{ RHS_LIMBS }>, Uint<{ LIMBS }>, ConstChoice))
+//@+
+    requires LIMBS >= 1, RHS_LIMBS >= 1
+    ensures ret__.2.wf(), ret__.2.t() == (self.iv() < 0),
+        ret__.0.v() + ret__.1.v() * bp(RHS_LIMBS as nat) == rhs.v() * abs_i(self.iv()),
+        (ret__.0.v() + ret__.1.v() * bp(RHS_LIMBS as nat)) * (if ret__.2.t() { -1int } else { 1int }) == rhs.v() * self.iv()
+//@-
 {
         let (lhs_abs, lhs_sgn) = self.abs_sign();
         let (lo, hi) = rhs.split_mul(&lhs_abs);
+//@+
+    proof { lemma_sign_mul(rhs.v(), self.iv()); lemma_val_bound(rhs.limbs@, RHS_LIMBS as nat); }
+//@-
         (lo, hi, lhs_sgn)
     }
 }
